@@ -142,4 +142,12 @@ def parseNetworkAddress (input : Bytes) : ListenRes :=
 def parseAdminListenAddr (addr dflt : Bytes) : ListenRes :=
   parseNetworkAddress (if addr = [] then dflt else addr)
 
+/-- `replaceLocalAdminServer` up to the handler: parse `admin.listen` (or the default), build the
+    handler for that address; `none` = the endpoint does not start.  `ip` is netip's verdict on the
+    host the string parses to. -/
+def localEndpoint (cfg : AdminCfg) (listen dflt : Bytes) (ip : IpClass) (modulePats : List Bytes) : Option Handler :=
+  match parseAdminListenAddr listen dflt with
+  | .ok network host port => some (newAdminHandler cfg ⟨network, host, port, ip⟩ false modulePats)
+  | .err => none
+
 end CaddyModel.C13
